@@ -3600,6 +3600,18 @@ class Assemble(Array):
     def _compile_expression(self, func, *args):
         return _pyast.Variable('evaluable').get_attr('Assemble').get_attr('evalf').call(func, *args)
 
+    def _intbounds_impl(self):
+        lower, upper = self.func._intbounds
+        # entries of `func` with equal indices are summed, positions that are not addressed are zero
+        n = 1
+        for index in self.indices:
+            if not isinstance(index, Range) and not (isinstance(index, Constant) and _ismonotonic(numpy.sort(index.value, axis=None))):
+                for sh in index.shape:
+                    n *= sh._intbounds[1]
+        if n == 0:
+            return 0, 0
+        return 0 if lower >= 0 else lower * n, 0 if upper <= 0 else upper * n
+
     def _compile_with_out(self, builder, out, out_block_id, mode):
         # Compiles to an assignment (or in place addition) of the form:
         #
